@@ -32,6 +32,31 @@ T = {
  "C20-m1": ("C20", "unsigned overflow wraps in Unmarshal", "an unsigned field written as value + 2^bits", {"C20": "VIOLATION with input", "C06": "VIOLATION no-failing-input-found (after wrap-around edits; missed before)", "C10": "VIOLATION no-failing-input-found"}),
  "C20-m2": ("C20", "a duplicated parameter inside a group is accepted (last wins)", "an Argon2-style group with one member written twice",
             {"C20": "VIOLATION with input (not-a-respelling) — missed entirely before duplicated-member splices were generated", "C06": "VIOLATION no-failing-input-found"}),
+ "C02-m1": ("C02", "desext key folding loop stops at the last full 8-byte block (i+8 <= len)", "a BSDi (_) hash of a password longer than 8 bytes whose length is not a multiple of 8; the near miss differs only in the trailing partial block",
+            {"C02": "VIOLATION with input (wrong-password-accepted)", "C03": "VIOLATION with input (libxcrypt disagrees in both directions)"}),
+ "C02-m2": ("C02", "bcrypt.Check compares decoded digest bytes", "last digest symbol replaced by another symbol with the same upper bits", {"C02": "VIOLATION with input (tampered-digest-accepted)", "C06": "VIOLATION with input", "C19": "flow IR breaks"}),
+ "C03-m1": ("C03", "SHA-crypt: `16 + da[0]` computed in a byte (wraps at 256)", "a (password, salt) pair whose digest A starts with a byte ≥ 240 (about 1 in 16)", {"C03": "VIOLATION with input (kdf model mismatch + our-hash-rejected by libxcrypt)", "C01": "VIOLATION no-failing-input-found"}),
+ "C03-m2": ("C03", "descrypt.Key packs bytes without masking bit 7; desext folds the value as DES plaintext", "desext, password > 8 bytes with a byte ≥ 0x80 at offset 1..7 of a non-final block", {"C03": "VIOLATION with input (libxcrypt both directions)", "C02": "VIOLATION no-failing-input-found"}),
+ "C04-m1": ("C04", "memory rounding `memory -= memory % syncPoints * threads` (precedence)", "lanes ≥ 2 and memory not a multiple of 4·lanes", {"C04": "VIOLATION with input (differs-from-rfc) — was no-failing-input-found before the spec-backed direct ops", "C09": "VIOLATION (differs-from-sequential)"}),
+ "C04-m2": ("C04", "H' final digest length `outLen/32 - 1`", "tag length > 64 with length % 64 == 32 (96, 160, …)", {"C04": "VIOLATION with input (hprime 96: differs-from-rfc) — was no-failing-input-found before"}),
+ "C05-m1": ("C05", "Parse appends a nil value when a group is closed right after a comma at end of input", "a hash whose last byte is ','", {"C05": "VIOLATION with input (check-panic)", "C11": "VIOLATION with input (nil-in-group)"}),
+ "C05-m2": ("C05", "argon2crypto.Key: `uint32(syncPoints * threads)` wraps in uint8", "thread count ≥ 64 (64/128/192: divide by zero; others: index out of range or wrong key)", {"C05": "VIOLATION with input (key-panic) — missed before many-lane points were added to the kdf/argon grids", "C04": "VIOLATION with input"}),
+ "C07-m1": ("C07", "crypt.Check: collapsed ifs lose the early ErrHash for an empty/unterminated identifier", "a handler registered for \"\" (des imported) and a hash like $, $$ab, $abc", {"C07": "VIOLATION with input (routing)"}),
+ "C07-m2": ("C07", "bcrypt init registers only $2a$ and $2b$", "a $2$ hash through crypt.Check", {"C07": "VIOLATION with input (builtin-handler) + regenerated registration facts break builtins_registered", "C01": "VIOLATION no-failing-input-found"}),
+ "C08-m1": ("C08", "type cache publishes an entry before it is normalized", "first use of a struct type from two goroutines at once", {"C08": "VIOLATION with input (data-race reports; concurrent-result-differs)", "C18": "OK (sequential behaviour identical)"}),
+ "C08-m2": ("C08", "prefix registry made copy-on-write without a writer lock", "two RegisterHash calls overlapping in time (no data race: all accesses atomic)", {"C08": "VIOLATION with input (concurrent-result-differs: lost registration) — missed before the concurrent-registration phase was added", "C07": "OK"}),
+ "C09-m1": ("C09", "worker cap by GOMAXPROCS drops remainder lanes", "1 < GOMAXPROCS < lanes and lanes % GOMAXPROCS != 0", {"C09": "VIOLATION with input (schedule-dependent)", "C04": "OK at default GOMAXPROCS"}),
+ "C09-m2": ("C09", "single-P fast path loops lane outside slice", "GOMAXPROCS == 1 and lanes ≥ 2", {"C09": "VIOLATION with input (schedule-dependent, differs-from-sequential)"}),
+ "C12-m1": ("C12", "descrypt.EncodeInt unrolled with `val >> 16` for the fourth symbol", "desext.NewHash with rounds ≥ 65536", {"C12": "VIOLATION with input (not-canonical: DecodeInt(EncodeInt(v)) ≠ v) — missed before desenc/desdec ops and high-round costs", "C01": "VIOLATION with input"}),
+ "C12-m2": ("C12", "argon2.Check compares decoded tags", "digest differing in the two low bits of its last symbol", {"C12": "VIOLATION with input (tampered-digest-accepted)", "C02": "VIOLATION with input"}),
+ "C13-m1": ("C13", "sha1.Key builds the HMAC message with append(salt, …)", "a salt slice with ≥ 6 spare bytes of capacity", {"C13": "VIOLATION with input (argument-modified) + argSafe_sha1 no longer provable"}),
+ "C13-m2": ("C13", "argon2.Key assigns opts.Version = Version10 through the caller's pointer", "non-nil options with Version == 0", {"C13": "VIOLATION with input (argument-modified: options struct) + argSafe_argon2 — missed before pointer stores entered the IR and option structs the purity suite", "C14": "VIOLATION with input"}),
+ "C15-m1": ("C15", "Encoding.Rand rejection test off by one: the last alphabet symbol is never drawn", "per-symbol coverage over many calls", {"C15": "VIOLATION with input (symbol never generated, frequency)"}),
+ "C15-m2": ("C15", "pooled cryptoutil.Rand short-copies at the pool boundary", "mixed history: an odd number of 8-byte (Argon2) requests followed by 16-byte (bcrypt) requests reaching offset 248", {"C15": "VIOLATION with input (8 zero bytes in a decoded bcrypt salt; salt not the specified function of entropy) — missed before mixed histories"}),
+ "C18-m1": ("C18", "tag-validation errors cached with the first caller's type form", "an invalid-tag struct type used twice in different value/pointer forms", {"C18": "VIOLATION with input (history-dependent) — missed before the invalid-tag family compared against cold siblings"}),
+ "C18-m2": ("C18", "embedded struct field lists memoized and then rewritten in place", "one struct type embedded in two outer types, both processed", {"C18": "VIOLATION with input (history-dependent: panic) — missed before the shared-embedding family", "C10": "OK"}),
+ "C19-m1": ("C19", "argon2.Check compares raw tags with bytes.Equal", "static: the Key result reaches an early-exit comparison", {"C19": "VIOLATION (offending statement named)", "C02": "VIOLATION with input"}),
+ "C19-m2": ("C19", "nthash.Check uses bytes.EqualFold", "static; functional witness: upper-case hex digest", {"C19": "VIOLATION (offending statement named)", "C06": "VIOLATION with input"}),
 }
 for d, (prop, what, needs, res) in T.items():
     p = os.path.join(ROOT, "seeded", d)
